@@ -14,6 +14,8 @@ for mp in sorted(glob.glob(os.path.join(HERE, "seeded", "*", "meta.json"))):
         else:
             res.append(r.get("result", "")[:60])
     first = next((x for r in ran for x in r.get("first_reports", [])), "")
+    if m.get("obsolete"):
+        res = ["no longer a break (see meta.json)"]
     title = re.sub(r"^Mutation \d+\s*[-:]\s*", "", m.get("title", ""))
     rows.append("| %s | %s | %s | %s | %s |" % (m["id"], title.replace("|", "/")[:110], ", ".join(m.get("touches", []))[:80].replace("src/nunavut/", ""),
                                               "; ".join(res), first.replace("|", "/")[:120] + (" " + m["history"] if m.get("history") else "")))
@@ -24,6 +26,6 @@ a, b = "<!-- SEEDTABLE:BEGIN -->\n", "<!-- SEEDTABLE:END -->\n"
 if a in s:
     s = s[:s.index(a) + len(a)] + table + s[s.index(b):]
     open(p, "w").write(s)
-    print("table updated: %d rows, %d caught" % (len(rows), sum("caught" in r and "not caught" not in r for r in rows)))
+    print("table updated: %d rows, %d caught" % (len(rows), sum(("caught" in r and "not caught" not in r) for r in rows)))
 else:
     print(table)
